@@ -14,6 +14,7 @@
 from __future__ import annotations
 
 import itertools
+import shutil
 import re
 import time
 
@@ -326,6 +327,10 @@ def render_fixed(items, breaks=(), comment_style=0, seqfield=False, inline_doc=F
     return "\n".join(out) + "\n"
 
 
+CPP_CMD = "cpp -traditional-cpp -E -D__GFORTRAN__"
+HAVE_CPP = shutil.which("cpp") is not None
+
+
 def tree_of(files, **extra):
     r = fordrun.build_fast(files, dict(display=["public", "private", "protected"], proc_internals=True, **extra))
     if r.error is not None or not r.project or not r.project.files or "ERROR in file" in r.log or "Error parsing" in r.log:
@@ -387,11 +392,16 @@ def tree_shard(args):
         # the same fixed-form text under each extension that selects fixed form by default
         for ext in ("for", "F", "FOR"):
             variants.append((f"ext-{ext}", dict(_ext=ext, comment_style=1, **(dict(breaks=(allbreaks[len(allbreaks) // 2],)) if allbreaks else {}))))
+        if HAVE_CPP:
+            # ... and run through a preprocessor first (these extensions are preprocessed by default when a preprocessor is configured)
+            for ext in ("F", "FOR"):
+                variants.append((f"ext-{ext}-cpp", dict(_ext=ext, _cpp=True, comment_style=1, **(dict(breaks=(allbreaks[len(allbreaks) // 2],)) if allbreaks else {}))))
         for vname, kw in variants:
             kw = dict(kw)
             ext = kw.pop("_ext", "f")
+            cpp = kw.pop("_cpp", False)
             fixed = render_fixed(items, **kw)
-            got, err = tree_of({f"src/m.{ext}": fixed})
+            got, err = tree_of({f"src/m.{ext}": fixed}, **(dict(preprocess=True, preprocessor=CPP_CMD) if cpp else {}))
             st.evaluations += 1
             st.transitions += 1
             f = dict(variant=vname, unit=case[1], features="")
@@ -479,7 +489,9 @@ def replay(path):
         return 1 if got != norm_items(ref.out) else 0
     print(rec["input"]["fixed"])
     base, _ = tree_of({"src/m.f90": rec["input"]["free"]})
-    got, err = tree_of({"src/m.f": rec["input"]["fixed"]})
+    vname = rec["input"].get("variant", "")
+    ext = vname.split("-")[1] if vname.startswith("ext-") else "f"
+    got, err = tree_of({f"src/m.{ext}": rec["input"]["fixed"]}, **(dict(preprocess=True, preprocessor=CPP_CMD) if vname.endswith("-cpp") else {}))
     if got is None:
         print("ford failed:", err)
         return 1
